@@ -104,7 +104,7 @@ RULES = [
     ("P9", pool2.P9_aspects("waiters-first", "delivered-or-drained", "payload", "queue-kept"), ["default"]),
     ("P2", pool.P2_aspects("callers", "conn"), ["default"]),
     ("P3", pool.P3_route, ["default"]),
-    ("P10", pool2.P10_aspects("sites", "pure-waiter"), ["default"]),
+    ("P10", pool2.P10_aspects("sites", "pure-waiter", "keeps"), ["default"]),
     ("P15", pool2.P15, ["default"]),
     ("P16b", pool2.no_try_lock, ["default"]),
     ("C04.1", C04_1, ["default"]),
